@@ -35,7 +35,7 @@ from twisted.internet.testing import StringTransport
 from twisted.protocols import amp
 from twisted.python.failure import Failure
 
-HEADLINE = "TwistedProps.C31.every_callRemote_fires_exactly_once"
+HEADLINE = "TwistedProps.C31.every_callRemote_fires_exactly_once_with_its_own_answer"
 RULE = ("schedules of call / fire / deliver / connectionLost operations between two real AMP peers: random mixes of the six "
         "responder behaviours x requiresAnswer x handled x follow-up calls made from inside the callback, deliveries of "
         "1..all bytes (so every box is cut at random byte boundaries), connection loss of either side (ConnectionDone / "
@@ -51,6 +51,8 @@ ASSUMES = [
     "callRemote is used while connected or after connectionLost (not before makeConnection); Deferreds returned by callRemote "
     "are not cancelled and only AMP fires them; user callbacks do not raise",
     "arguments/responses are serialisable (no TooLong / BadLocalReturn), no StartTLS / ProtocolSwitchCommand",
+    "a Deferred returned by a responder is fired at most once by the application (Deferred itself raises AlreadyCalledError "
+    "otherwise), so a responder produces at most one reply box per _ask — used by no_box_without_question",
 ]
 TRUSTED = [
     "Deferred callback chains run synchronously when the Deferred fires (Command._doCommand's parseResponse/_massageError, "
@@ -58,18 +60,24 @@ TRUSTED = [
     "harness network (this file): per-direction FIFO byte pipes on top of twisted.internet.testing.StringTransport",
 ]
 MANIFEST = {
-    "text": "Lean theorems (TwistedProps/C31.lean) over ALL schedules of calls from both peers (any mix of responders answering "
-            "at once / later / never / with declared, fatal or undeclared errors / not existing; requiresAnswer or not; handled "
-            "or unhandled errors; follow-up calls made inside callbacks), deliveries of any byte counts and connection loss of "
-            "either side at any point: no callRemote Deferred ever fires twice and each has fired exactly once as soon as it is no "
-            "longer outstanding / its side has lost the connection (accounting invariant); whenever a Deferred fires, the outcome is "
-            "its own call's: a response or declared error carries its own call number and was produced by the responder "
-            "invocation for that call, UnknownRemoteError only for an undeclared failure of its own responder, the loss reason only "
-            "the one given to its own side's connectionLost (tag invariant: a tag in flight never stands for another call); "
-            "connectionLost fires every outstanding Deferred with the reason; calls after the loss fail at once with that reason "
-            "and send nothing. NOT proved: that no reply ever misses its question (KeyError-freedom needs tag uniqueness; checked "
-            "by tie + oracle only). Model tied to amp.py by differential runs of two real AMP instances over an in-memory byte "
-            "network, wire bytes compared byte for byte.",
+    "text": "Lean theorem every_callRemote_fires_exactly_once_with_its_own_answer (TwistedProps/C31.lean) over ALL schedules of "
+            "calls from both peers (any mix of responders answering at once / later / never / with declared, fatal or undeclared "
+            "errors / not existing; requiresAnswer or not; handled or unhandled errors; follow-up calls made inside callbacks), "
+            "deliveries of any byte counts and connection loss of either side at any point, at every moment: (1) no exception "
+            "escapes — _outstandingRequests.pop(tag) always finds its key and sendBox never raises out of callRemote "
+            "(no_box_without_question; tag-flow invariant: the multiset of a connected caller's tags in the ask pipe, held by the "
+            "peer's responder Deferreds and in the reply pipe is included in the keys of its _outstandingRequests); (2) every "
+            "callRemote Deferred has either fired exactly once, with a single outcome that is its own call's — a response or "
+            "declared error carrying its own call number and produced by the responder invocation for that call, "
+            "UnknownRemoteError only for an undeclared failure of its own responder, UnhandledCommand only for a command without "
+            "responder, the loss reason only the one given to its own side's connectionLost — and is no longer outstanding, or has "
+            "not fired, is still outstanding and its caller's connection is not lost (accounting invariant + tag-matching "
+            "invariant); (3) connectionLost(w) delivered next to the caller of a call that has not fired fires it with w; (4) a "
+            "callRemote made next on a side that was told connectionLost(w) returns a Deferred already failed with w and writes "
+            "nothing. Separately, for ANY state (not only reachable ones): connectionLost fires every outstanding Deferred with "
+            "the reason; calls after the loss fail at once with that reason and send nothing. Liveness of answers (a reply in the pipe is eventually "
+            "delivered) is the scheduler's business and not claimed. Model tied to amp.py by differential runs of two real AMP "
+            "instances over an in-memory byte network, wire bytes compared byte for byte.",
     "note": "trusts Lean kernel, the hand-written model of BoxDispatcher/AMP.connectionLost/Command._doCommand (differentially "
             "tied), synchronous Deferred chains, the box parser (counted, not parsed, in the model)",
     "technique": "Lean 4 proof (inductive invariant over a small-step two-peer network semantics) + differential tie + "
